@@ -34,6 +34,7 @@ pub fn run(prop: &str, sk: &Skeleton) -> Leaf {
         "C19" => convert::c19(sk),
         "C15" => text::c15(sk),
         "C17" => text::c17(sk),
+        "C17round" => text::c17_round(sk),
         "C06" => relational::c06(sk),
         "C09" => relational::c09(sk),
         "C10" => relational::c10(sk),
